@@ -413,6 +413,12 @@ Proof.
   intros He. apply Hb; assumption.
 Qed.
 
+Lemma Inv_Q m : Inv m -> should m = false -> Q m.
+Proof.
+  intros (Ha & Hb & Hc & Ht) Hs. unfold Q. split; [exact Ha|]. split; [|exact Ht].
+  intros He. apply Hb; assumption.
+Qed.
+
 Lemma run_actions_Q acts : forall m, Q m -> ok (snd (run_actions sh nested acts m)) ->
   Q (fst (run_actions sh nested acts m)) /\ nonneg (snd (run_actions sh nested acts m)).
 Proof.
@@ -431,14 +437,15 @@ Proof.
     + destruct (is_state sh n); [|exfalso; eapply not_ok_err; exact Hok].
       pose proof (nested_inv (next_state m n) now') as Hn.
       destruct (nested (next_state m n) now') as [m1 e1].
-      match goal with |- context [run_actions sh nested r ?mm] =>
-        specialize (IH mm); destruct (run_actions sh nested r mm) as [m2 e2] end.
+      set (m1r := if engaged m1 then m1 <| should := should (next_state m n) |> else m1) in *.
+      specialize (IH m1r). destruct (run_actions sh nested r m1r) as [m2 e2].
       cbn in *.
       apply ok_app in Hok. destruct Hok as [Hi Hok]. apply ok_app in Hok. destruct Hok as [Hd Hok].
       apply ok_cons in Hok. destruct Hok as [_ Hok]. apply ok_cons in Hok. destruct Hok as [_ Hok].
       apply ok_app in Hok. destruct Hok as [Hok1 Hok2].
       destruct (Hn (Inv_next_state m n HQ (off_idle_ok m Hi) (off_default_ok n Hd)) Hok1) as (HI1 & Hs1 & Hnn1).
-      destruct (IH (Q_restore m1 _ HI1 Hs1) Hok2) as [HQ' Hnn2].
+      assert (HQr : Q m1r) by (unfold m1r; destruct (engaged m1); [apply Q_restore | apply Inv_Q]; assumption).
+      destruct (IH HQr Hok2) as [HQ' Hnn2].
       split; [exact HQ'|].
       apply nonneg_app; split; [apply off_idle_nonneg|].
       apply nonneg_app; split; [apply off_default_nonneg|].
